@@ -719,6 +719,28 @@ func (c *Ctx) dictResults() {
 				okv = false
 			}
 		})
+		// the in-place update of an existing key is decided by the Equal scan, not by the ordered
+		// search: decoded dictionaries are in key-bit order, which is not Compare order for signed keys
+		upd := 0
+		okUpd := true
+		allInstrs(f, func(b *ssa.BasicBlock, in ssa.Instruction) {
+			st, ok := in.(*ssa.Store)
+			if !ok {
+				return
+			}
+			ia, ok := st.Addr.(*ssa.IndexAddr)
+			if !ok || !derivesFrom(ia.X, fieldLoadNamed("values"), false) {
+				return
+			}
+			upd++
+			seen, truth := equalFact(f, b)
+			if !seen || !truth {
+				okUpd = false
+			}
+		})
+		if upd > 0 {
+			c.check(okUpd, R, "Put updates an existing key where Equal matched it", f.Pos(), "values[i] = v behind Equal(key) == true", "Hashmap.Put overwrites a stored value on a path that is not the Equal-matched one (it decides 'key already present' inside the Compare-ordered search): on a decoded dictionary with signed keys of mixed sign, or one built from unsorted keys, an existing key is not found and is inserted a second time")
+		}
 		if n > 0 {
 			c.check(okv, R, "Put panics only for a foreign key type", f.Pos(), "panic under Compare's ok == false", "Hashmap.Put panics on a path other than 'Compare reported the key type as foreign': inserting an ordinary new key crashes")
 		}
